@@ -1896,7 +1896,7 @@ def oracle_c09(run, ops, impl):
 PROPS["C09"] = {
     "modules": ["NibiruProofs.C09"],
     "prefix": "C09_",
-    "runs": [{"model": "interleave", "n_quick": 120, "n_thorough": 1500, "thorough_seeds": 6, "no_model": True, "per_line": True,
+    "runs": [{"model": "interleave", "n_quick": 120, "n_thorough": 1500, "thorough_seeds": 6, "cmp_tokens": 1, "per_line": True,
               "nontrivial": r"^(same|DIFFERS)"}],
     "oracle": oracle_c09,
     "rule": "each case executes the block's Ethereum tx (a contract that calls a yield precompile and makes the FunToken precompile "
